@@ -3,6 +3,7 @@ from props import ArmsKaniUnit, JitKaniUnit, KaniUnit
 from ex_units import JitSmtUnit
 from tv_units import AllocTVUnit, FlattenTVUnit, SimplifyTVUnit, BytecodeTVUnit, ConstructTVUnit
 from remap_tv import RemapTVUnit
+from shapes_tv import ShapesTVUnit
 
 LIBM_STUBS = [
     "f32::sin, f32::cos -> functional, NaN/inf->NaN, range [-1,1] (no monotonicity)",
@@ -66,6 +67,10 @@ PROPS = {
     "C13": {
         "level": "translation_validation",
         "units": [RemapTVUnit()],
+    },
+    "C16": {
+        "level": "translation_validation",
+        "units": [ShapesTVUnit()],
     },
     "C15": {
         "level": "translation_validation",
